@@ -493,6 +493,9 @@ func (e *Enc) applyContract(fr *Frame, st *State, c *Contract, args []*Val, rt t
 			e.unsupportedf("ensures of %s: %v", c.Key, err)
 			continue
 		}
+		if en.Trusted && e.dry == 0 {
+			e.assumedUsed["trusted ensures of "+c.Key]++
+		}
 		e.assume(st, g)
 	}
 	return res
@@ -600,6 +603,8 @@ func (e *Enc) encBuiltin(fr *Frame, st *State, b *ssa.Builtin, cc *ssa.CallCommo
 				t := "(" + f + " (select " + dom + " " + x.L[0].T + "))"
 				e.assert("(<= 0 " + t + ")")
 				e.assert("(= (" + f + " ((as const (Array " + ksort + " Bool)) false)) 0)")
+				// a (finite) map has no entries iff its key set is empty
+				e.assert("(= (= " + t + " 0) (= (select " + dom + " " + x.L[0].T + ") ((as const (Array " + ksort + " Bool)) false)))")
 				return &Val{T: rt, L: []Sc{{ite(eq(x.L[0].T, "0"), "0", t), "Int"}}}
 			}
 		case *types.Array:
@@ -730,6 +735,10 @@ func (e *Enc) encAppend(fr *Frame, st *State, cc *ssa.CallCommon, args []*Val, r
 		inNew := "(and (<= (+ " + no + " " + ln + ") q) (< q (+ " + no + " " + nlen + ")))"
 		outside := "(or (< q " + no + ") (>= q (+ " + no + " " + nlen + ")))"
 		e.assert("(forall ((q Int)) (! (and (=> " + inOld + " (= (select " + na + " q) " + oldAt + ")) (=> " + inNew + " (= (select " + na + " q) " + src + ")) (=> (and " + fits + " " + outside + ") (= (select " + na + " q) (select (select " + h + " " + base + ") q)))) :pattern ((select " + na + " q))))")
+		if !isStr {
+			// appending exactly one element (the common case): the new cell directly
+			e.assert("(=> (= " + tlen + " 1) (= (select " + na + " (+ " + no + " " + ln + ")) (select (select " + h + " " + tbase + ") " + toff + ")))")
+		}
 		e.withRef(base, func() { e.heapSet(st, k, sorts[i], "(store "+h+" "+nb+" "+na+")") }) // base itself, or a new backing
 		if b, ok := sl.Elem().Underlying().(*types.Basic); ok && b.Kind() == types.Uint8 && !isStr && len(keys) == 1 {
 			e.bcatFact(e.bseqTerm(na, no, nlen), e.bseqTerm("(select "+h+" "+base+")", off, ln), e.bseqTerm("(select "+h+" "+tbase+")", toff, tlen))
